@@ -163,25 +163,28 @@ Theorem C02_walkoff_sign_and_90 : forall no ne,
 Proof. exact (fun no ne H1 H2 => conj (walkoff_closed_at_90 no ne) (walkoff_closed_sign no ne H1 H2)). Qed.
 
 Theorem C02_walkoff_gen_is_central_difference : forall n theta,
-  walkoff_gen n theta =
-  let h := fd_step_gen theta in atan (- ((n (theta + h) - n (theta - h)) / (2 * h)) / n theta).
+  exists h, walkoff_step_ok theta h /\
+  walkoff_gen n theta = atan (- ((n (theta + h) - n (theta - h)) / (2 * h)) / n theta).
 Proof. exact walkoff_gen_unfold. Qed.
 
-(* PARTIAL: distance between the code's walk-off (central difference, step h = eps^(1/3) |theta|) and the exact one, for any
+(* PARTIAL: distance between the code's walk-off (central difference; whatever step branch the code takes, the step is
+   positive and at most eps^(1/3) max(|theta|, 1): walkoff_step_ok) and the exact one, for any
    index function n that is three times differentiable with third derivative bounded by M near theta: M h^2 / (6 n(theta)).
    With h ~ 6e-6 |theta| the property's 1e-6 rad follows from any M <= 1e5; missing: that bound on the third derivative of
    theta |-> index (not proved), and the binary64 rounding of the quotient (measured). *)
 Theorem C02_walkoff_truncation_partial : forall (n : R -> R) theta M,
   0 < n theta ->
   (forall t k, (k <= 3)%nat -> ex_derive_n n k t) ->
-  (forall t, theta - fd_step_gen theta < t < theta + fd_step_gen theta -> Rabs (Derive_n n 3 t) <= M) ->
-  Rabs (walkoff_gen n theta - walkoff_exact n theta) <= M * fd_step_gen theta ^ 2 / (6 * n theta).
+  (forall t, Rabs (Derive_n n 3 t) <= M) ->
+  Rabs (walkoff_gen n theta - walkoff_exact n theta) <= M * (Rpower eps64 (1 / 3) * Rmax (Rabs theta) 1) ^ 2 / (6 * n theta).
 Proof. exact walkoff_gen_truncation. Qed.
 
 (* every orientation: the two divisors of the code's walk-off formula (step width, index) are non-zero over the reals *)
 Theorem C02_walkoff_defined : forall theta phi nx ny nz d p,
   0 < nx -> 0 < ny -> 0 < nz -> unit_vec d ->
-  fd_step_gen (walkoff_theta_at_gen theta) <> 0 /\ (forall t, 0 < index_along_gen t phi nx ny nz d p).
+  (forall f, exists h, 0 < h /\ walkoff_np_prime_gen f (walkoff_theta_at_gen theta) =
+                               (f (walkoff_theta_at_gen theta + h) - f (walkoff_theta_at_gen theta - h)) / (2 * h)) /\
+  (forall t, 0 < index_along_gen t phi nx ny nz d p).
 Proof. exact walkoff_defined. Qed.
 
 (* non-vacuity *)
